@@ -54,7 +54,12 @@ class Poly:
                     d[a] = d.get(a, 0) + p
                 if unit_square:
                     for a in list(d):
-                        if unit_square(a):
+                        u = unit_square(a)
+                        if u == 'cube':
+                            # a in {-1, 0, 1}: a^3 = a, but a^2 = 1 only for a != 0
+                            if d[a] > 2:
+                                d[a] = 2 - (d[a] % 2)
+                        elif u:
                             d[a] %= 2
                             if d[a] == 0:
                                 del d[a]
